@@ -414,8 +414,9 @@ static int huge_bh(const struct cstl_bintree_node *n, const struct cstl_bintree_
  * streams give the tallest legal trees: height close to 2*log2(n)), audited, partly erased, audited, then cleared */
 static void huge_tree(uint64_t nsel, uint64_t seed)
 {
-    static const size_t sizes[] = { 131072, 200000, 262144, 262144 };
+    static const size_t sizes[] = { 131072, 262144, 350000, 420000 };
     size_t n = sizes[nsel % 4], i, cnt, live; int pattern = (int)(nsel >> 8) % 4, maxd, prevkey;   /* 0,1 ascending; 2 descending; 3 random */
+    int hinted = (int)(nsel >> 16 & 1);         /* every insert passes the parent reported by find as a hint (what cstl_map_insert does) */
     static struct cstl_rbtree ht; static size_t hmin, hmax;
     uint64_t x = seed;
     struct telem *pool = malloc(n * sizeof *pool);
@@ -427,8 +428,15 @@ static void huge_tree(uint64_t nsel, uint64_t seed)
     for (i = 0; i < n; i++) {
         pool[i].magic = MAGIC; pool[i].tail = ~MAGIC; pool[i].id = (int)i; pool[i].mark = 0; pool[i].tree = 9;
         pool[i].key = pattern <= 1 ? (int)i : pattern == 2 ? (int)(n - i) : (int)(splitmix64(&x) % 1000000);
-        g_inlib = 1; cstl_rbtree_insert(&ht, &pool[i], NULL); g_inlib = 0;
+        if (hinted) {
+            const void *par = NULL;
+            g_inlib = 1; (void)cstl_rbtree_find(&ht, &pool[i], &par); cstl_rbtree_insert(&ht, &pool[i], (void *)par); g_inlib = 0;
+        } else {
+            g_inlib = 1; cstl_rbtree_insert(&ht, &pool[i], NULL); g_inlib = 0;
+        }
     }
+    if (hinted) PROBE("huge_tree_hinted_inserts");
+    if (n > 327678) PROBE("huge_tree_above_327678");
     live = n;
     for (int round = 0; round < 2; round++) {
         size_t expect = round == 0 ? n : n / 2 - n / 8;
@@ -604,8 +612,20 @@ static void t_exec(const plan_t *p)
                 else PROBE("erase_two_children_succ_deeper");
             }
             if (is_rb(t) && p->mode == 2) g_cur_prop = "C02";
-            if (is_rb(t)) TRY(ret = cstl_rbtree_erase(&rb[t - 2], HND(&probe)));
-            else TRY(ret = cstl_bintree_erase(BT(t), HND(&probe))); ret = ELMN(ret);
+            {
+                /* the probe is usually a scratch object; sometimes it is an element that is itself held in the tree (the
+                 * caller asks "remove one like this one") - with duplicates not necessarily the one that goes */
+                static void *pr;
+                pr = HND(&probe);
+                if ((o->a[5] & 1) && held > 0) {
+                    int pick = -1, seen = 0, want = (int)(o->a[3] >> 20) % held;
+                    for (i = 0; i < m->n; i++) if (m->e[i]->key == key && seen++ == want) pick = i;
+                    if (pick >= 0) { pr = HND(m->e[pick]); PROBE("erase_with_held_element_as_probe"); if (held > 1) PROBE("erase_probe_among_duplicates"); }
+                }
+                if (is_rb(t)) TRY(ret = cstl_rbtree_erase(&rb[t - 2], pr));
+                else TRY(ret = cstl_bintree_erase(BT(t), pr));
+                ret = ELMN(ret);
+            }
             g_cur_prop = prop_of(t);
             if (g_aborted) VIOL(t, g_aborted == 2 ? "assert" : "abort", "erase aborted");
             if (held == 0) {
@@ -732,6 +752,11 @@ static void t_gen(prng_t *r, int mode, plan_t *p)
         op_t *o = plan_add(p, T_HUGE);
         p->cfg[CF_NB] = 0; p->cfg[CF_NR] = 1; p->cfg[CF_KEYS] = 2; p->cfg[CF_JUNK] = 1 + prng_below(r, 254); p->cfg[CF_MAXN] = 8;
         o->a[1] = prng_next(r); o->a[2] = prng_next(r);
+        {
+            /* the first eight runs of the batch are the combinations that matter most (size index | pattern << 8 | hinted << 16) */
+            static const uint64_t first[8] = { 3 | 0 << 8, 3 | 2 << 8 | 1 << 16, 2 | 1 << 8 | 1 << 16, 2 | 2 << 8, 1 | 0 << 8, 0 | 3 << 8, 3 | 3 << 8 | 1 << 16, 1 | 2 << 8 | 1 << 16 };
+            if (g_gen_index < 8) o->a[1] = first[g_gen_index];
+        }
         return;
     }
     int cur = 0, dir = 1;
